@@ -12,6 +12,7 @@ import (
 	"bytes"
 	"context"
 	"fmt"
+	"io"
 	"math/rand"
 	"strconv"
 	"strings"
@@ -24,6 +25,7 @@ import (
 	"github.com/plgd-dev/go-coap/v3/message/codes"
 	"github.com/plgd-dev/go-coap/v3/message/pool"
 	"github.com/plgd-dev/go-coap/v3/net/blockwise"
+	"github.com/plgd-dev/go-coap/v3/net/client"
 	"github.com/plgd-dev/go-coap/v3/net/responsewriter"
 	tcpclient "github.com/plgd-dev/go-coap/v3/tcp/client"
 	tcpcoder "github.com/plgd-dev/go-coap/v3/tcp/coder"
@@ -208,6 +210,36 @@ func scnPathUDP(t *testing.T, ops string) {
 }
 
 // do: client requests against a scripted peer.
+// refusedCalls: calls of the generic client API that the library refuses before anything is sent (a path segment longer than
+// 255 bytes cannot be encoded): every message acquired on the way must be given back exactly once.
+type apiConn interface {
+	Get(ctx context.Context, path string, opts ...message.Option) (*pool.Message, error)
+	Post(ctx context.Context, path string, contentFormat message.MediaType, payload io.ReadSeeker, opts ...message.Option) (*pool.Message, error)
+	Put(ctx context.Context, path string, contentFormat message.MediaType, payload io.ReadSeeker, opts ...message.Option) (*pool.Message, error)
+	Delete(ctx context.Context, path string, opts ...message.Option) (*pool.Message, error)
+	Observe(ctx context.Context, path string, observeFunc func(req *pool.Message), opts ...message.Option) (client.Observation, error)
+	ReleaseMessage(m *pool.Message)
+}
+
+func refusedCalls(cc apiConn) {
+	bad := "/ok/" + strings.Repeat("s", 300)
+	ctx, cancel := context.WithTimeout(context.Background(), time.Second)
+	defer cancel()
+	give := func(m *pool.Message, err error) {
+		if err == nil && m != nil {
+			cc.ReleaseMessage(m)
+		}
+	}
+	give(cc.Get(ctx, bad))
+	give(cc.Post(ctx, bad, message.TextPlain, strings.NewReader("body")))
+	give(cc.Put(ctx, bad, message.TextPlain, strings.NewReader("body")))
+	give(cc.Delete(ctx, bad))
+	if o, err := cc.Observe(ctx, bad, func(*pool.Message) {}); err == nil && o != nil {
+		_ = o.Cancel(ctx)
+	}
+	give(cc.Post(ctx, bad, message.TextPlain, nil))
+}
+
 func scnDoUDP(t *testing.T, kind string) {
 	w := newUDP(false)
 	var mu sync.Mutex
@@ -239,7 +271,12 @@ func scnDoUDP(t *testing.T, kind string) {
 		case "reset":
 			w.inject(reply(m, message.Reset, codes.Empty, m.MessageID(), "", -1))
 		case "silent", "cancel":
+		case "refused":
+			w.inject(reply(m, message.Acknowledgement, codes.Content, m.MessageID(), "piggy", -1))
 		}
+	}
+	if kind == "refused" {
+		refusedCalls(w.cc)
 	}
 	for i := 0; i < 3; i++ {
 		ctx, cancel := context.WithTimeout(context.Background(), 40*time.Second)
@@ -659,6 +696,9 @@ func scnTCP(t *testing.T, name string, arg string) {
 			cc.ReleaseMessage(hijacked)
 		}
 	case "do":
+		if arg == "refused" {
+			refusedCalls(cc)
+		}
 		for i := 0; i < 3; i++ {
 			ctx, cancel := context.WithTimeout(context.Background(), 5*time.Second)
 			done := make(chan struct{})
